@@ -802,6 +802,27 @@ def parse_fzn_out(out):
     return blocks, status
 
 
+class FznSpec:
+    """What the oracle needs to judge an output: recorded with every case so that a replay does not depend
+    on the generator."""
+
+    def __init__(self, names, sols, out_arrays, objective):
+        self.names, self.sols, self.out_arrays, self.objective = names, sols, out_arrays, objective
+
+    @staticmethod
+    def of(m):
+        names, sols = fzn_brute(m)
+        return FznSpec(names, sols, m.out_arrays, m.objective)
+
+    def to_json(self):
+        return {"names": self.names, "solutions": [[a[n] for n in self.names] for a in self.sols], "out_arrays": self.out_arrays, "objective": self.objective}
+
+    @staticmethod
+    def from_json(j):
+        sols = [dict(zip(j["names"], vals)) for vals in j["solutions"]]
+        return FznSpec(j["names"], sols, [tuple(x) for x in j["out_arrays"]], tuple(j["objective"]) if j["objective"] else None)
+
+
 def check_fzn(m, text, args, d, res):
     path = os.path.join(d, "m.fzn")
     with open(path, "w") as f:
@@ -811,7 +832,7 @@ def check_fzn(m, text, args, d, res):
     if rc == "timeout":
         fail(res, "timeout", "no answer within 20 s (args %s)" % args)
         return
-    names, sols = fzn_brute(m)
+    names, sols = m.names, m.sols
     blocks, status = parse_fzn_out(out)
     if rc != 0 or "panicked" in err:
         fail(res, "no-verdict", crash_text(rc, out, err))
@@ -901,8 +922,11 @@ def case_fzn(r, i, d):
     classes = sorted(m.classes) + ["flag." + a.lstrip("-") for a in args if a in ("-a", "-f")]
     res = result(i, classes, text, args)
     res["_model"] = m
-    check_fzn(m, text, args, d, res)
-    _, sols = fzn_brute(m)
+    spec = FznSpec.of(m)
+    check_fzn(spec, text, args, d, res)
+    sols = spec.sols
+    if len(sols) <= 64:
+        res["case"]["oracle"] = spec.to_json()
     res["nontrivial"] = len(sols) >= 2
     for c in m.classes:
         res["cover"].append(c)
@@ -994,4 +1018,17 @@ def case_repro(r, i, d, runs):
     for fn in files:
         res["cover"].append("file:" + fn.split(".")[-1])
     res["nontrivial"] = len(outs[0]["stdout"].splitlines()) >= 3
+    return res
+
+
+def replay_fzn(data, d):
+    """Replays a recorded FlatZinc case: the recorded text and arguments are run again and judged against the
+    recorded solution set."""
+    c = data["case"]
+    args = (data.get("config") or {}).get("args", [])
+    res = result(0, data.get("classes", []), c["text"], args)
+    if "oracle" not in c:
+        res["status"] = "skip"
+        return res
+    check_fzn(FznSpec.from_json(c["oracle"]), c["text"], args, d, res)
     return res
